@@ -191,36 +191,79 @@ func checkScheduleReset(c *Ctx, r *Report) {
 			if !isCF && !isBM {
 				return
 			}
-			k, isK := constInt(st.Val)
-			var fact *condFact
-			for _, cf := range normFacts(condFacts(in.Block())) {
-				if healthyComparison(c, cf.Cond) {
-					cfc := cf
-					fact = &cfc
+			// the stored value and the facts it is stored under; a value that comes out of a small helper
+			// (`cf, bm = nextFailureState(cf, m, isSuccess)`) is expanded into the helper's alternatives, its
+			// parameters standing for the call's arguments
+			type alt struct {
+				val   ssa.Value
+				facts []condFact
+			}
+			alts := []alt{{st.Val, normFacts(condFacts(in.Block()))}}
+			var hcall *ssa.Call
+			hidx := 0
+			switch x := st.Val.(type) {
+			case *ssa.Extract:
+				hcall, _ = x.Tuple.(*ssa.Call)
+				hidx = x.Index
+			case *ssa.Call:
+				hcall = x
+			}
+			if hcall != nil {
+				if sc := hcall.Call.StaticCallee(); sc != nil && sc.Blocks != nil && c.inRepo(sc) {
+					for i, p := range sc.Params {
+						if i < len(hcall.Call.Args) {
+							bindParam(p, hcall.Call.Args[i])
+						}
+					}
+					alts = nil
+					for _, vr := range virtualReturns(sc, hidx) {
+						fs := normFacts(append(append([]condFact{}, vr.Facts...), condFacts(vr.At.Block())...))
+						for i := range fs {
+							fs[i].Cond = boundValue(fs[i].Cond)
+						}
+						alts = append(alts, alt{boundValue(vr.Val), append(fs, normFacts(condFacts(in.Block()))...)})
+					}
 				}
 			}
 			name := map[bool]string{true: "ConsecutiveFailures", false: "BackoffMultiplier"}[isCF]
-			switch {
-			case isK && ((isCF && k == 0) || (isBM && k == 1)):
-				found = true
-				key := fname(f) + ":reset:" + name
-				if fact != nil && fact.True {
-					r.OK("C07-R2", key, in.Pos(), "schedule reset happens only when the check result's status is healthy")
-				} else {
-					r.Bad("C07-R2", key, in.Pos(), "the back-off schedule is reset on a branch that is not `result.Status == healthy` (an answered-but-failing check, e.g. 4xx/5xx, would reset the back-off)")
-				}
-			case isCF:
-				key := fname(f) + ":increment:" + name
-				inc := false
-				if bo, ok := st.Val.(*ssa.BinOp); ok && bo.Op == token.ADD {
-					if kk, ok := constInt(bo.Y); ok && kk == 1 {
-						inc = true
+			for _, a := range alts {
+				k, isK := constInt(a.val)
+				var fact *condFact
+				infeasible := false
+				for _, cf := range a.facts {
+					if healthyComparison(c, cf.Cond) {
+						if fact != nil && fact.True != cf.True {
+							infeasible = true // the helper's branch contradicts the branch the store sits on
+						}
+						cfc := cf
+						fact = &cfc
 					}
 				}
-				if inc && fact != nil && !fact.True {
-					r.OK("C07-R2", key, in.Pos(), "failure counter incremented once on the not-healthy branch")
-				} else {
-					r.Bad("C07-R2", key, in.Pos(), "failure counter update is not a single increment on the not-healthy branch")
+				if infeasible {
+					continue
+				}
+				switch {
+				case isK && ((isCF && k == 0) || (isBM && k == 1)):
+					found = true
+					key := fname(f) + ":reset:" + name
+					if fact != nil && fact.True {
+						r.OK("C07-R2", key, in.Pos(), "schedule reset happens only when the check result's status is healthy")
+					} else {
+						r.Bad("C07-R2", key, in.Pos(), "the back-off schedule is reset on a branch that is not `result.Status == healthy` (an answered-but-failing check, e.g. 4xx/5xx, would reset the back-off)")
+					}
+				case isCF:
+					key := fname(f) + ":increment:" + name
+					inc := false
+					if bo, ok := a.val.(*ssa.BinOp); ok && bo.Op == token.ADD {
+						if kk, ok := constInt(bo.Y); ok && kk == 1 {
+							inc = true
+						}
+					}
+					if inc && fact != nil && !fact.True {
+						r.OK("C07-R2", key, in.Pos(), "failure counter incremented once on the not-healthy branch")
+					} else {
+						r.Bad("C07-R2", key, in.Pos(), "failure counter update is not a single increment on the not-healthy branch")
+					}
 				}
 			}
 		})
